@@ -218,6 +218,12 @@ func (b *Batch) Commit() error {
 	if err != nil {
 		return err
 	}
+	// 完成标识记录同样需要持久化, 否则断电后整个批次会被丢弃
+	if b.options.Sync {
+		if err := b.db.activeFile.Sync(); err != nil {
+			return err
+		}
+	}
 
 	b.staged = nil
 	b.stageIndex = nil
